@@ -109,6 +109,18 @@ def handleUnit (defs reqs : String) : String :=
         | _ => "bad"
       "built|" ++ ";".intercalate (Q.map fun e => s!"{String.ofList e.1}={showUQ e.2}") ++ "#" ++ "#".intercalate ((splitList reqs ";").map one)
 
+
+/-- prefix notation: `L <pows>` leaf, `M`/`D`/`A` binary, `P <rat>`/`S`/`U` unary; tokens separated by blanks (`-` = empty exponent vector) -/
+partial def parseExpr : List String → Option (Expr × List String)
+  | "L" :: d :: rest => (parsePows (if d = "-" then "" else d)).map fun d => (.leaf (fromPowers d), rest)
+  | "M" :: rest => do let (a, r1) ← parseExpr rest; let (b, r2) ← parseExpr r1; pure (.mul a b, r2)
+  | "D" :: rest => do let (a, r1) ← parseExpr rest; let (b, r2) ← parseExpr r1; pure (.div a b, r2)
+  | "A" :: rest => do let (a, r1) ← parseExpr rest; let (b, r2) ← parseExpr r1; pure (.addLike a b, r2)
+  | "P" :: q :: rest => do let q ← parseRat q; let (a, r1) ← parseExpr rest; pure (.pow a q, r1)
+  | "S" :: rest => do let (a, r1) ← parseExpr rest; pure (.sqrt a, r1)
+  | "U" :: rest => do let (a, r1) ← parseExpr rest; pure (.unary a, r1)
+  | _ => none
+
 def handle (U : UTable) (line : String) : UTable × String :=
   let pure' (s : String) := (U, s)
   match fields line with
@@ -181,6 +193,13 @@ def handle (U : UTable) (line : String) : UTable × String :=
       | .ok U' => (U', s!"ok|{U'.length}")
       | .error e => pure' s!"err|{perrName e}"
     | none => pure' "bad-request"
+  | ["expr", e] =>
+    match parseExpr (words e) with
+    | some (e, []) =>
+      match e.dim with
+      | .ok d => pure' s!"ok|{showPows d}"
+      | .error er => pure' s!"err|{errName er}"
+    | _ => pure' "bad-request"
   | ["usys", defs, reqs] => pure' (handleUnit defs reqs)
   | ["sispec"] => pure' (";".intercalate (siSpec.map fun e => s!"{e.1}={showPows e.2.dim}={showRat e.2.val}"))
   | ["checktable", defs] =>
